@@ -47,8 +47,8 @@ OUTSIDE = ["double rounding in fmod/remainder (an angle within 1 ulp of the seam
            "state dimensions above 2; more than three stacked observations (property text: up to four), three stacked observations for state dimension 2 (the 3x3 adjugate identity for est_p did not decide within 25 min); symbolic tuning constants in the update obligations",
            "degenerate weighted resultant sum_j w_j (cos, sin)(theta_j) = 0 (numpy's arctan2(0, 0) = 0 carries no direction; possible with a negative centre weight)",
            "singular innovation covariance",
-           "genetic particle filter: forecast() is executed (O8: residual rows, weight exponents, normalised scores, both list orders; 2 particles, state dimension 2, two observations of 1-2 "
-           "components with linear measurement rows, exp cut to a positive value per call); its random resampling/crossover, predict() and the innovation/NIS bookkeeping of update() are not",
+           "genetic particle filter: forecast() is executed (O8: residual rows, weight exponents, normalised scores, both list orders; 2 particles, state dimension 2, two single-component observations "
+           "(a 2-component observation with correlated noise was not decided within budget) with linear measurement rows, exp cut to a positive value per call); its random resampling/crossover, predict() and the innovation/NIS bookkeeping of update() are not",
            "that the rotated configuration's measured angle is congruent to y + c is an input relation, not derived from a sensor model",
            "filter objects reused across several predict() steps (O7 re-uses the object within one step: the posterior of an update is a rational function whose Cholesky factor is not "
            "available symbolically); stale state other than what update() publishes (mean_pred_y, sigma_y_res, innovation, est_x, est_p, is_angular)",
@@ -1436,8 +1436,9 @@ class _ExpCut:
         return v
 
 
-GPF_CASES = {"ap|lin": (["ap"], ["lin"]), "lin|a0": (["lin"], ["a0"]), "lin|lin": (["lin"], ["lin"]), "a0|ap": (["a0"], ["ap"]),
-             "ap|lin+lin": (["ap"], ["lin", "lin"]), "lin|a0+lin": (["lin"], ["a0", "lin"])}
+GPF_CASES = {"ap|lin": (["ap"], ["lin"]), "lin|a0": (["lin"], ["a0"]), "lin|lin": (["lin"], ["lin"]), "a0|ap": (["a0"], ["ap"])}
+# (two-component observations with a correlated 2x2 noise block were tried: the exponent identities stay `unknown` at 30 s per path and a share of
+#  the paths takes more than 25 min, so they are not obligations - see OUTSIDE)
 
 
 def _gpf_obs(tag, kinds, n, N, pop, sensor_id):
